@@ -68,6 +68,8 @@ def classify(r):
             return "hang", "hang:over-links-cycle"
         if "resolveMoots" in fns or "clone" in fns:
             return "hang", "hang:clone-cycle"
+        if "traceOutline" in fns:
+            return "hang", "hang:under-links-cycle"
         return "hang", "hang:" + (r[1][0] if r[1] else "unknown")
     if k == "internal":
         if r[1] in ("ParameterError", "CloneError", "RegisterError"):
@@ -177,22 +179,62 @@ def run(ctx):
         ctx.tie_broken("correspondence", "OverLinks model vs Builder on `in` graph", repr(ometas[i]))
     ctx.extra["overs_mismatches"] = len(obad)
 
+    # ---- (2b) resolveFramer model vs the real function on a house with framers of every schedule,
+    #           a logger and a server (they share the tasker name registry) ---------------------------
+    rc, out = ctx.impl_python(os.path.join(HERE, "rf_probe.py"), None, 120)
+    m = re.search(r"^@@(.*)$", out, re.M)
+    if not m:
+        ctx.tie_broken("harness", "rf_probe.py", out[-800:])
+    else:
+        pr = json.loads(m.group(1))
+        nid = {}
+        for nme in list(pr["registry"]) + [r[0] for r in pr["results"]]:
+            nid.setdefault(nme, len(nid) + 1)
+        reglit = "[" + "; ".join("(%d, %s)" % (nid[k], "TFramer %d" % v[1] if v[0] == "framer" else "TOther")
+                                 for k, v in pr["registry"].items()) + "]"
+        fcases, fmetas = [], []
+        for nme, ctxs, o in pr["results"]:
+            ctx.case({"resolveFramer": nme, "contexts": ctxs, "outcome": o}, nontrivial=True,
+                     kind="resolveFramer:" + o[0])
+            if o[0] not in ("ok", "ResolveError"):
+                ctx.tie_broken("correspondence", "resolveFramer returned/raised something that is not a framer or a "
+                               "ResolveError", "name=%r (registry: %r) contexts=%r -> %r" % (
+                                   nme, pr["registry"].get(nme), ctxs, o))
+                continue
+            fcases.append(("resolve_framer %s %d [%s]" % (reglit, nid[nme], "; ".join(str(c) for c in (ctxs or []))),
+                           "FOk %d" % o[1] if o[0] == "ok" else "FResolveError"))
+            fmetas.append((nme, ctxs, o))
+        fhdr = header + ("Definition f_eqb (a b : fres) := match a, b with FOk x, FOk y => N.eqb x y "
+                         "| FResolveError, FResolveError => true | _, _ => false end.\n")
+        fbad = ctx.coq_cases(fhdr, "f_eqb", fcases, name="rframer")
+        for i in fbad[:5]:
+            ctx.tie_broken("correspondence", "resolve_framer model vs framing.resolveFramer", repr(fmetas[i]))
+        ctx.extra["resolveFramer_mismatches"] = len(fbad)
+
     # ---- (3) dynamic support ---------------------------------------------------------------------
     corpus = json.load(open(os.path.join(HERE, "corpus.json")))
     plans = [open(p).read() for p in G.plans(ctx.repo)]
     scripts = [c["script"] for c in corpus] + list(plans)
     kinds = ["corpus"] * len(corpus) + ["plan"] * len(plans)
+    roles = G.role_scripts()          # deterministic: every name kind in every framer/tasker/frame position
+    scripts += roles
+    kinds += ["role"] * len(roles)
     for _ in range(ctx.n(300, 6000)):
         scripts.append(G.grammar_script(rng))
         kinds.append("grammar")
     for _ in range(ctx.n(300, 6000)):
         scripts.append(G.mutate(rng, rng.choice(plans)))
         kinds.append("mutation")
-    res = run_scripts(ctx, scripts, limit=5.0)
+    nc = len(corpus)
+    res = run_scripts(ctx, scripts[:nc], limit=3.0, chunk=2) + run_scripts(ctx, scripts[nc:], limit=5.0, chunk=60)
     for s, kd, r in zip(scripts, kinds, res):
         cls, key = classify(r)
         early = r[0] == "ParseError" and ("index = 1." in r[1] or "No current" in r[1])
-        ctx.case({"kind": kd, "script": s[:400], "outcome": r[:2]}, nontrivial=not early, kind="%s:%s" % (kd, cls))
+        if kd == "role":
+            s_show = [ln.strip() for ln in s.split("\n")][5]
+        else:
+            s_show = s[:400]
+        ctx.case({"kind": kd, "script": s_show, "outcome": r[:2]}, nontrivial=not early, kind="%s:%s" % (kd, cls))
         if key:
             note(ctx, key, s, r)
     ctx.extra["dynamic_scripts"] = len(scripts)
@@ -245,7 +287,7 @@ def search(ctx):
     for f in FOUND:
         if f["key"] not in best or len(f["script"]) < len(best[f["key"]]["script"]):
             best[f["key"]] = f
-    key = sorted(best)[0]
+    key = sorted(best, key=lambda k: (not k.startswith("internal:"), k))[0]
     f = shrink(ctx, best[key])
     contr = {"hang:over-links-cycle": "C14.Props.over_resolution_terminates"}.get(
         key, "C14.Props.all_error_messages_format / all_error_path_names_bound or the dynamic outcome classes")
